@@ -1,5 +1,4 @@
 """C34 — HTN task-network ordering extraction is exact."""
-import itertools
 import warnings
 from fractions import Fraction
 
@@ -85,8 +84,21 @@ def rel_pairs(n, loops, mask):
     return [p for k, p in enumerate(pairs_of(n, loops)) if mask >> k & 1]
 
 
+_LAST_BUILT = [None, None]
+
+
 def build(payload):
-    """-> TaskNetwork built through the public API, or None if a subtask was rejected"""
+    """-> TaskNetwork built through the public API, or None if a subtask was rejected.  The network built for the
+    very same payload object is reused (impl() and oracle() are called on it one after the other; neither of the
+    observed methods changes the network)."""
+    if _LAST_BUILT[0] is payload:
+        return _LAST_BUILT[1]
+    tn = _build(payload)
+    _LAST_BUILT[0], _LAST_BUILT[1] = payload, tn
+    return tn
+
+
+def _build(payload):
     tn = TaskNetwork()
     if payload[0] == "net":
         try:
@@ -126,6 +138,25 @@ def block_network(n, mask):
     return tn
 
 
+_BLOCK_RESULTS = {}   # (n, lo, hi) -> [(partial_order(), total_order())] as returned by the real code in impl()
+
+
+def block_results(n, lo, hi, keep):
+    """what the real partial_order()/total_order() return for every mask of a block; computed once per block and
+    shared between impl() and oracle() (the n=5 sweep is 2^20 networks, the real code is the bottleneck)"""
+    key = (n, lo, hi)
+    if key in _BLOCK_RESULTS:
+        return _BLOCK_RESULTS[key] if keep else _BLOCK_RESULTS.pop(key)
+    res = []
+    for m in range(lo, hi):
+        tn = block_network(n, m)
+        res.append((tn.partial_order(), tn.total_order()))
+    if keep:
+        _BLOCK_RESULTS.clear()
+        _BLOCK_RESULTS[key] = res
+    return res
+
+
 def nm(x):
     """identifiers are strings; anything else the code might hand out is made visible, never hidden"""
     return x if isinstance(x, str) else "#" + repr(x)
@@ -139,10 +170,13 @@ def out(tn):
             ["nc", str(len(tn.constraints))]]
 
 
-def block_atom(n, mask):
-    tn = block_network(n, mask)
-    po, to = tn.partial_order(), tn.total_order()
-    idx = {(f"t{i}", f"t{j}"): k for k, (i, j) in enumerate(pairs_of(n, False))}
+_IDX = {}
+
+
+def block_atom(n, po, to):
+    if n not in _IDX:
+        _IDX[n] = {(f"t{i}", f"t{j}"): k for k, (i, j) in enumerate(pairs_of(n, False))}
+    idx = _IDX[n]
     if po is None:
         a = "-"
     elif len(po) == 0:
@@ -161,7 +195,7 @@ def block_atom(n, mask):
 def impl(payload):
     if payload[0] == "relblock":
         n, lo, hi = int(payload[1]), int(payload[2]), int(payload[3])
-        return [block_atom(n, m) for m in range(lo, hi)]
+        return [block_atom(n, po, to) for po, to in block_results(n, lo, hi, keep=True)]
     tn = build(payload)
     if tn is None:
         return "reject"
@@ -217,10 +251,14 @@ def count_linear_extensions(ids, precs, cap=2):
     return ways.get((1 << n) - 1, 0)
 
 
-def check_network(tn):
+def check_network(tn, answers=None):
     ids = [s.identifier for s in tn.subtasks]
     cl = [classify(c, set(ids)) for c in tn.temporal_constraints()]
-    po, to = tn.partial_order(), tn.total_order()
+    po, to = answers if answers is not None else (tn.partial_order(), tn.total_order())
+    return check_answers(ids, cl, po, to)
+
+
+def check_answers(ids, cl, po, to):
     if any(x[0] == "other" for x in cl):
         if po is not None or to is not None:
             return f"a non-precedence temporal constraint is present but partial_order={po} total_order={to}"
@@ -249,8 +287,11 @@ def check_network(tn):
 def oracle(payload):
     if payload[0] == "relblock":
         n, lo, hi = int(payload[1]), int(payload[2]), int(payload[3])
-        for m in range(lo, hi):
-            v = check_network(block_network(n, m))
+        base, prs, fn = block_setup(n)
+        ids = [s.identifier for s in base.subtasks]
+        cls = [classify(c, set(ids)) for c in fn]      # each stored constraint classified from the real FNode
+        for m, (po, to) in zip(range(lo, hi), block_results(n, lo, hi, keep=False)):
+            v = check_answers(ids, [cls[k] for k in range(len(prs)) if m >> k & 1], po, to)
             if v:
                 return f"mask {m}: {v}"
         return None
